@@ -101,7 +101,7 @@ PROPS["C01"] = dict(level="proof", allowed_axioms=FLOCQ_AXIOMS,
     streams=[dict(name="plain", family="plain", quick=3000, thorough=200000, nontrivial=r"^OK .*60,"),
              dict(name="scan", family="scan", quick=2000, thorough=100000, nontrivial=r"\(Tag ")],
     trusted_base=TB_RENDER, modelled=MOD_RENDER, assumptions=["valid UTF-8", "no attribute with the attribute prefix, no block element, no <!-- /* */ --> comment"],
-    level_text="Theorems: token values concatenate to the source (scan_concat), the tree builder keeps every token in order (build_flatten), and rendering a tree without directives prints every text/comment/CDATA/close tag byte for byte and every open tag as <name attr[=raw]...> (render_plain, for every loader-built tree: build_shaped); tied to the code by diffing rendered output on generated documents, plus the direct oracles (output = source parts, re-scan gives the same parts, second render is identical).",
+    level_text="Theorems: token values concatenate to the source (scan_concat), the tree builder keeps every token in order (build_flatten), and rendering a tree without directives prints every text/comment/CDATA/close tag byte for byte and every open tag as <name attr[=raw]...> (render_plain, for every loader-built tree: build_shaped); the printed form equals the source up to white space (render_differs_only_by_space) and is a fixed point of scan-and-print (render_idempotent); tied to the code by diffing rendered output on generated documents, plus the direct oracles (output = source parts, re-scan gives the same parts, second render is identical).",
     level_note="Theorems tag_print_nonspace / tag_source_shape_open / render_differs_only_by_space (Proofs/TagPrint*.v) state the in-tag white-space clause; the direct oracle 'output = source after deleting all white space' checks the same on the implementation.")
 PROPS["C02"] = render_prop(
     "Theorems: unescape(escape s) = s, escape s contains none of < > \" ' and every & starts one of the five entities, :text emits escape(value), a dynamic attribute emits name=\"escape(value)\", :raw emits the value verbatim; tied to the code by diffing rendered output for hostile strings at every insertion point; the structure clause is theorem structure_invariant (text_hole_invariant / attr_hole_invariant: Proofs/Hole*.v) about the scanner model as the consumer, and is checked on the implementation by re-scanning outputs for pairs of inserted strings.",
